@@ -33,6 +33,10 @@ def run(run):
         exit_table(run, lc)
         spawn_shape(run, f, lc)
         accessor_laws(run, f)
+        # "killed=true exactly when a kill signal ended the actor": a consumed control signal is a kill only if kill() is the
+        # only sender on the control channel (C06 rule O6.1)
+        from rules import c06
+        c06.control_channel(run, f)
 
 
 def _field(desc, name):
